@@ -1,5 +1,6 @@
 """Attribute access, calls, contracts at call sites, builtins, spec vocabulary."""
 import ast
+import os
 import z3
 
 from . import sorts as so
@@ -77,7 +78,7 @@ class Calls(Interp):
                 lib = self.lib_contract(k, attr)
                 if lib is not None:
                     return BoundV(obj.recv, lib, attr)
-                if isinstance(k, str) and attr == "__init__" and (k.split(".")[-1] in EXC_BASES or k in ("object",)):
+                if attr == "__init__" and (k is None or (isinstance(k, str) and (k.split(".")[-1] in EXC_BASES or k in ("object",)))):
                     return BuiltinV("noop")       # BaseException.__init__ / object.__init__: `args` is set at allocation
                 self.unsupported(node, "super().%s not found (base %r)" % (attr, k))
             if isinstance(m, tuple):
@@ -369,6 +370,17 @@ class Calls(Interp):
             heap = self.iter_by_ord.get(k)
             if heap is None:
                 raise SpecError("at_loop(%r) outside that loop" % (k,))
+            cur = self.st.heap
+            self.st.heap = heap
+            try:
+                return self.ev(node.args[1])
+            finally:
+                self.st.heap = cur
+        if isinstance(fn, ast.Name) and fn.id == "at_entry" and self.spec_mode:
+            # at_entry(k, e): e in the state in which loop #k of this function was entered
+            heap = self.entry_by_ord.get(node.args[0].value)
+            if heap is None:
+                raise SpecError("at_entry(%r): that loop has not been entered on this path" % (node.args[0].value,))
             cur = self.st.heap
             self.st.heap = heap
             try:
@@ -1129,6 +1141,16 @@ class Calls(Interp):
             return RangeV(self.as_int(args[0], node), self.as_int(args[1], node))
         self.unsupported(node, "range with step")
 
+    def bi_enumerate(self, args, kwargs, node):
+        from .interp import EnumV
+        v = args[0]
+        if isinstance(v, LazyMapV):
+            v = v.force(self, node)
+        seq, et = self.iter_seq(v, node)
+        if isinstance(seq, ZipV):
+            self.unsupported(node, "enumerate of zip")
+        return EnumV(seq, et)
+
     def bi_zip(self, args, kwargs, node):
         parts = []
         for a in args:
@@ -1740,7 +1762,19 @@ class Calls(Interp):
         finally:
             self.pop_bind()
         if which == "all":
-            return BoolSV(z3.ForAll(qv, z3.Implies(z3.And([rng] + conds), body)))
+            q = z3.ForAll(qv, z3.Implies(z3.And([rng] + conds), body))
+            # redundant ground instance at the current loop index: e-matching on seq.nth is unreliable, and the element the
+            # loop body works on is exactly the one at _i
+            cur = self.frame.locals.get("_i") if self.st.frames else None
+            lseq = self.frame.locals.get("_seq") if self.st.frames else None
+            over_loop_seq = isinstance(lseq, PSeq) and not isinstance(it, RangeV) and 'seq' in dir() and not isinstance(seq, ZipV) \
+                and z3.is_expr(seq) and z3.simplify(seq).eq(z3.simplify(lseq.seq))
+            if over_loop_seq and isinstance(cur, SV) and len(qv) == 1 and qv[0].sort() == z3.IntSort() and not getattr(self, "_no_split", False) \
+                    and getattr(self, "_assuming", False) and not os.environ.get("VERIF_NO_LOOPINST"):
+                it_ = Val.i(cur.term)
+                inst = z3.substitute(z3.Implies(z3.And([rng] + conds), body), (qv[0], it_))
+                q = z3.And(q, inst)
+            return BoolSV(q)
         return BoolSV(z3.Exists(qv, z3.And([rng] + conds + [body])))
 
     def quantifier_range(self, which, gen, node, lo, hi, qid):
@@ -1966,6 +2000,11 @@ class Calls(Interp):
             old_alloc = self.comp("$alloc", State())
         return BoolSV(self.refof(args[0], node) < old_alloc)
 
+    def sp_has_local(self, args, kwargs, node):
+        """the verified function's local variable is bound at this point (static)"""
+        nm = self.const_str(args[0], node)
+        return BoolSV(bool(self.st.frames) and nm in self.st.frames[0].locals)
+
     def sp_allocated_now(self, args, kwargs, node):
         """object exists in the current state"""
         return BoolSV(self.refof(args[0], node) < self.comp("$alloc"))
@@ -2100,6 +2139,30 @@ class Calls(Interp):
         so._fresh[0] += 1
         pre = _HeapView(self.old_stack[0])
         return BoolSV(z3.ForAll([r], z3.Implies(z3.And(r >= 0, r < self.pre_alloc), self.comp(name)[r] == self.comp(name, pre)[r])))
+
+    def sp_frame_rest(self, args, kwargs, node):
+        """frame_ok(c) for every heap component c touched so far that the contract's `modifies` does not list wholesale
+        (plus the names given as arguments are skipped too): the loop-invariant form of the frame condition"""
+        skip = {self.const_str(a, node) for a in args} | {"$alloc", "$G"}
+        c = self.current_contract
+        if c is not None:
+            skip |= {m.strip() for m in c.modifies if m.strip().startswith("$") or m.strip().startswith("f:")}
+            if not c.frame_hist:
+                skip.add("$hist")
+        pre = _HeapView(self.old_stack[0])
+        r = z3.Int("fr_%d" % so._fresh[0])
+        so._fresh[0] += 1
+        conj = []
+        for name, term in sorted(self.st.heap.items()):
+            if name in skip:
+                continue
+            before = self.comp(name, pre)
+            if term.eq(before):
+                continue
+            conj.append(term[r] == before[r])
+        if not conj:
+            return BoolSV(True)
+        return BoolSV(z3.ForAll([r], z3.Implies(z3.And(r >= 0, r < self.pre_alloc), z3.And(conj))))
 
     def sp_unchanged(self, args, kwargs, node):
         """heap component (by name) unchanged since old"""
